@@ -93,6 +93,11 @@ func c07R1(c *Ctx) {
 		reason, ok := c07PanicTable[tk]
 		if !ok {
 			reason, ok = c.tabledS(c07PanicTable, s.fn, "|"+s.msg)
+			if !ok {
+				// the panic moved into a helper shared by the tabled functions: every caller of the helper has a tabled
+				// panic with this message
+				reason, ok = c.sharedTabledPanic(c07PanicTable, s.fn, s.msg)
+			}
 		}
 		if !ok {
 			c.bad(rule, key, c.instrPos(s.in), fmt.Sprintf("panic(%q) is reachable in the run path and is not a tabled invariant: a run-time fault must end the run with an error (report + cancel), not kill the process", s.msg))
@@ -1463,4 +1468,31 @@ func c07R12(c *Ctx) {
 	if n == 0 {
 		c.ok(rule, "no-precondition-calls", "-", "the run path calls none of the tabled library functions with a panicking precondition", false)
 	}
+}
+
+// sharedTabledPanic: fn is called (statically, never as a value) only by functions that each have a tabled panic with
+// the message msg; the reasons are joined.
+func (c *Ctx) sharedTabledPanic(table map[string]string, fn *ssa.Function, msg string) (string, bool) {
+	sites := c.CG().callers[fn]
+	if len(sites) < 2 || len(sites) > 6 || c.usedAsValue(fn) {
+		return "", false
+	}
+	var reasons []string
+	seen := map[string]bool{}
+	for _, st := range sites {
+		cc := callCommon(st.Instr)
+		g := st.Instr.Parent()
+		if cc == nil || cc.StaticCallee() != fn || g == nil {
+			return "", false
+		}
+		r, ok := c.tabledS(table, g, "|"+msg)
+		if !ok {
+			return "", false
+		}
+		if !seen[r] {
+			seen[r] = true
+			reasons = append(reasons, r)
+		}
+	}
+	return "shared by tabled callers: " + strings.Join(reasons, " / "), true
 }
